@@ -58,7 +58,11 @@ func main() {
 			sizes = append(sizes, n)
 		}
 		w, _ := strconv.Atoi(os.Args[4])
-		if err := runBoardWriter(os.Args[2], os.Args[3], w, sizes); err != nil {
+		lk := os.Args[3]
+		if lk == "-" {
+			lk = ""
+		}
+		if err := runBoardWriter(os.Args[2], lk, w, sizes); err != nil {
 			fmt.Fprintln(os.Stderr, err)
 			os.Exit(1)
 		}
